@@ -252,6 +252,23 @@ const TEMPLATES: &[&[&str]] = &[
     &["Wa:rlx Wb:rel", "Rb:rlx F:acq Wc:rel", "Rc:acq Ra:rlx"],
     &["Wa", "Ra:rlx F:sc Wb", "Rb F:sc Ra"],
     &["Wa F:sc Wb", "Rb:rlx F:sc Ra"],
+    // failing compare-exchange: what it synchronises with and what it has seen afterwards
+    &["Wa Wb:rel", "Xb:acq Ra:rlx"],
+    &["Wa Wb:rel", "Xb:ar Ra:rlx"],
+    &["Wa Wb:rel", "Xb:sc Ra:rlx"],
+    &["Wa Wb:rel", "Yb:acq Ra:rlx"],
+    &["Wa Wb:rel", "Xb:rlx F:acq Ra:rlx"],
+    &["Wa", "Xa Ra"],
+    &["Wa", "Wa", "Xa Ra Ra"],
+    // the order of SeqCst fences is total (three-thread store-buffering ring)
+    &["Wa F:sc Rb", "Wb F:sc Rc", "Wc F:sc Ra"],
+    &["Wa:rlx F:sc Rb:rlx", "Wb:rlx F:sc Rc:rlx", "Wc:rlx F:sc Ra:rlx"],
+    // a load right after a release store of the same thread (version bookkeeping)
+    &["Wb", "Wa:rel Rb:rlx Wc:rlx", "Rc:rlx Ra:acq Rb:rlx"],
+    &["Wb", "Wa:rel Rb:rlx Wc:rel", "Rc:acq Ra:rlx Rb:rlx"],
+    // release sequences continued by a releasing / relaxed RMW
+    &["Wa Wb:rel", "Ub:rel", "Rb:acq Ra"],
+    &["Wa Wb:rel", "Ub:rlx", "Rb:acq Ra"],
     &["Wa F:rel Ub:acq", "Rb:acq Ra"],
     &["Wa F:rel Ub:rlx", "Rb:rlx F:acq Ra"],
     &["Wa Ub:rel", "Ub:rlx", "Rb:acq Ra"],
@@ -316,6 +333,15 @@ pub fn gen_litmus_template(rng: &mut Rng) -> Program {
                         Some(bit) if rng.chance(1, 2) => Op::FetchAdd { a: loc as u8, v: bit, o },
                         _ => Op::Swap { a: loc as u8, v: vs.constant(), o },
                     }
+                }
+                // a compare-exchange that expects the initial value: it fails whenever it reads
+                // another store. 'X': failure ordering Relaxed; 'Y': failure ordering Acquire.
+                b'X' | b'Y' => {
+                    used[loc] = true;
+                    let drawn = pick_rmw_ord(rng, pal);
+                    let so = pinned.unwrap_or(drawn);
+                    let fo = if b[0] == b'X' { MO::Rlx } else { MO::Acq };
+                    Op::Cas { a: loc as u8, e: 0, n: vs.constant(), so, fo }
                 }
                 _ => unreachable!(),
             };
@@ -1228,6 +1254,46 @@ pub fn gen_yield_after_lock(rng: &mut Rng) -> Program {
     t0.push(Op::Join { t: 1 });
     let holder = vec![acq2, Op::Await { a: 0, o: MO::Sc, v: flag }, rel2];
     p.threads = vec![t0, holder];
+    p
+}
+
+/// A failed `try_lock` (or `try_read` / `try_write`) is not a hand-over: a writer publishes a cell
+/// only through "lock; unlock; relaxed flag", a holder sits in its critical section, an observer
+/// that has seen the flag fails to acquire and touches the cell - a data race.
+pub fn gen_trylock_no_handover(rng: &mut Rng) -> Program {
+    let mut vs = ValueSrc::new();
+    let use_rw = rng.chance(1, 3);
+    let mut p = Program { atomics: vec![0, 0], n_mutex: 1, n_rwlock: if use_rw { 1 } else { 0 }, n_cell: 1, ..Default::default() };
+    let flag = vs.constant();
+    let (lock, unlock, try_, hold, release): (Op, Op, Op, Op, Op) = if use_rw {
+        (Op::WLock { l: 0 }, Op::WUnlock { l: 0 }, if rng.chance(1, 2) { Op::TryRLock { l: 0 } } else { Op::TryWLock { l: 0 } }, Op::WLock { l: 0 }, Op::WUnlock { l: 0 })
+    } else {
+        (Op::Lock { m: 0 }, Op::Unlock { m: 0 }, Op::TryLock { m: 0 }, Op::Lock { m: 0 }, Op::Unlock { m: 0 })
+    };
+    let flag_ord = if rng.chance(2, 3) { MO::Rlx } else { MO::Rel };
+    let writer = vec![Op::CWrite { c: 0, v: vs.constant() }, lock, unlock, Op::Store { a: 0, v: flag, o: flag_ord }];
+    // (a scheduling point inside the critical section, so that the observer can run meanwhile)
+    let holder = vec![hold, Op::Store { a: 1, v: vs.constant(), o: MO::Rlx }, Op::Load { a: 1, o: MO::Rlx }, release];
+    let wait_ord = if flag_ord == MO::Rel && rng.chance(1, 2) { MO::Acq } else { MO::Rlx };
+    let access = if rng.chance(1, 2) { Op::CRead { c: 0 } } else { Op::CWrite { c: 0, v: vs.constant() } };
+    // (a successful attempt is released again)
+    let undo = match try_ {
+        Op::TryRLock { l } => Op::RUnlock { l },
+        Op::TryWLock { l } => Op::WUnlock { l },
+        _ => Op::Unlock { m: 0 },
+    };
+    let observer = vec![Op::Await { a: 0, o: wait_ord, v: flag }, try_, Op::If { pc: 1, eq: 0, then: Box::new(access) }, Op::If { pc: 1, eq: 1, then: Box::new(undo) }];
+    let mut threads = vec![writer, holder, observer];
+    rng.shuffle(&mut threads);
+    let mut t0 = Vec::new();
+    for i in 0..3 {
+        t0.push(Op::Spawn { t: (i + 1) as u8 });
+    }
+    for i in 0..3 {
+        t0.push(Op::Join { t: (i + 1) as u8 });
+    }
+    p.threads = vec![t0];
+    p.threads.extend(threads);
     p
 }
 
